@@ -18,7 +18,10 @@ import (
 // Submit outcomes: ok | prefix:<k> | timeout | mempool | toobig | err | acklost | cancel
 // Fetch outcomes (per GetIDs call on a height, consumed in order, then the natural answer):
 //
-//	notfound | future | errlist | errchunk:<i> | ok
+//	notfound | future | errlist | deadline | canceled | errchunk:<i> | ok
+//
+// deadline / canceled: the listing fails with a context error although the caller's context is alive (the
+// per-request timeout fired, or the DA server cancelled the request on its side).
 type DADouble struct {
 	mu      sync.Mutex
 	tr      *Tracer
@@ -234,6 +237,10 @@ func (d *DADouble) GetIDs(ctx context.Context, height uint64, namespace []byte) 
 		return nil, coreda.ErrBlobNotFound
 	case "errlist":
 		return nil, errors.New("dadouble: scripted listing failure")
+	case "deadline":
+		return nil, fmt.Errorf("dadouble: listing height %d: %w", height, context.DeadlineExceeded)
+	case "canceled":
+		return nil, fmt.Errorf("dadouble: listing height %d: %w", height, context.Canceled)
 	}
 	if n == 0 {
 		return &coreda.GetIDsResult{IDs: []coreda.ID{}, Timestamp: time.Unix(0, 0)}, nil
